@@ -47,6 +47,10 @@ def one(ch):
     try:
         ap = subprocess.run("git -C %s apply %s" % (wt, patch), shell=True, capture_output=True, text=True)
         if ap.returncode != 0:
+            # the patch was written against an earlier commit: fall back to a 3-way merge of its hunks
+            ap = subprocess.run("git -C %s apply -3 %s && ! git -C %s diff --name-only --diff-filter=U | grep -q ." % (wt, patch, wt),
+                                shell=True, capture_output=True, text=True)
+        if ap.returncode != 0:
             print(ch, "patch does not apply:", ap.stderr.strip()[:200], flush=True)
             return ch, {"applies": False}
         res = {}
